@@ -107,7 +107,8 @@ class ConnectSock(Contract):
     def loop(self, k):
         def inv(ip):
             st = ip.st
-            sock = ip.env.vars.get('sock')
+            from pyvc.source import Roles
+            sock = ip.env.vars[Roles(WebsocketSession._connect_sock).assigned_from('socket.socket(')]
             out = [('no-socket-held-at-the-head-of-the-address-loop', BoolVal(sock is None), ('C09',))]
             for s in st.ghost.get('sockets_created', []):
                 g = extworld.sock_state(st, s)
@@ -119,7 +120,8 @@ class ConnectSock(Contract):
         def mods(ip):
             return [('ghost', 'pending_close', lambda ip: None)]
         if k == 0:
-            return LoopSpec(inv=inv, modifies=mods, locals={'sock': T.Const(None), 'af': T.Opaque(), 'socktype': T.Opaque(), 'proto': T.Opaque(),
+            from pyvc.source import Roles
+            return LoopSpec(inv=inv, modifies=mods, locals={Roles(WebsocketSession._connect_sock).assigned_from('socket.socket('): T.Const(None), 'af': T.Opaque(), 'socktype': T.Opaque(), 'proto': T.Opaque(),
                                                             'canonname': T.Opaque(), 'sa': T.Opaque(), 'res': T.Const(None), 'error': T.Const(None)})
         return None
 
@@ -249,6 +251,16 @@ CP.ParserFeed.other_raises = _other_raises
 
 
 # ------------------------------------------------------------------------------- _connect_proxy
+def proxy_response_name():
+    """the variable of _connect_proxy that holds the proxy's parsed answer: the one its read loop tests"""
+    from pyvc.source import Roles
+    r = Roles(WebsocketSession._connect_proxy)
+    names = r.while_test_names(0)
+    if not names:
+        r._fail('the parsed proxy response')
+    return names[0]
+
+
 @contract('lomond.session.WebsocketSession._connect_proxy', serves=['C19', 'C09'])
 class ConnectProxy(Contract):
     """connects to the PROXY's host and port (default 80 / 443 by the proxy URL's scheme), sends
@@ -276,7 +288,7 @@ class ConnectProxy(Contract):
     def loop(self, k):
         def inv(ip):
             st = ip.st
-            r = ip.env.vars.get('response')
+            r = ip.env.vars[proxy_response_name()]
             is_none = r.is_none if isinstance(r, SOpt) else BoolVal(r is None)
             ans = st.ghost.setdefault('answered', BoolVal(False))
             return [('a-response-object-means-the-proxy-answered-200', Or(is_none, ans), ('C19',))]
@@ -284,9 +296,9 @@ class ConnectProxy(Contract):
         def mods(ip):
             return [('ghost', 'answered', lambda ip: fresh('answered', B))]
         if k == 0:
-            return LoopSpec(inv=inv, modifies=mods, locals={'response': T.Opt(T.Const(Opaque('response'))), 'data': T.Const(None)})
+            return LoopSpec(inv=inv, modifies=mods, locals={proxy_response_name(): T.Opt(T.Const(Opaque('response'))), 'data': T.Const(None)})
         if k == 1:
-            return LoopSpec(inv=inv, modifies=mods, locals={'response': T.Opt(T.Const(Opaque('response')))})
+            return LoopSpec(inv=inv, modifies=mods, locals={proxy_response_name(): T.Opt(T.Const(Opaque('response')))})
         return None
 
     def ensures(self, ip, a, old, res):
